@@ -40,6 +40,7 @@ func keyName(k keys.Key) string {
 			storage.InvalidIteratorByUserObjectTypeCacheKey(storeID, "user:a", "doc"):         "UOTa",
 			storage.InvalidIteratorByUserObjectTypeCacheKey(storeID, "group:g#member", "doc"): "UOTg",
 			storage.InvalidIteratorByUserObjectTypeCacheKey(storeID, "user:z", "doc"):         "UOTz",
+			storage.InvalidIteratorByUserObjectTypeCacheKey(storeID, "user:*", "doc"):         "UOT*",
 			iterKey("R1"): "R1", iterKey("U2"): "U2", iterKey("S"): "S",
 		}
 	}
@@ -82,7 +83,8 @@ func entityKey(api string) keys.Key {
 //     change and after the cached LastModified (the two values an invalidation time can take before the next write).
 //   - monitors: "a run that started after the last write has completed", the contents each key ever held.
 func (w *world) canon() string {
-	if exactCanon {
+	if exactCanon || w.cfg.Wild {
+		// the reduced form below assumes one per-entity key per read and no key matching two tuples
 		return w.canonExact()
 	}
 	return w.canonReduced()
